@@ -218,10 +218,16 @@ theorem C14_char (parse : Str → Option URL) (i w : Str) (cs : Bool) (u v : URL
   · simp only [Bool.false_or]; exact C14_slow_char cs u v
   · simp only [Bool.true_or, true_iff]; exact hfast hf
 
-/-- Membership in an IRI list agrees with IRI equality (scheme ignored). -/
-theorem C14_contains (parse : Str → Option URL) (l : List Str) (r : Str) :
+/-- Membership in an IRI list agrees with IRI equality (scheme ignored), for every needle that is not the nil
+item … -/
+theorem C14_contains (parse : Str → Option URL) (l : List Str) (r : Str) (hr : isNilIRI r = false) :
     irisContains parse l r = true ↔ ∃ i ∈ l, equals parse r i false = true := by
-  simp [irisContains, List.any_eq_true]
+  simp [irisContains, hr, List.any_eq_true]
+
+/-- … and the nil item (the empty IRI, the IRI `-`) is a member of no list (the nil rule of the collections) -/
+theorem C14_contains_nil (parse : Str → Option URL) (l : List Str) (r : Str) (hr : isNilIRI r = true) :
+    irisContains parse l r = false := by
+  simp [irisContains, hr]
 
 /-! ### insensitivities of the key, at the level of path segments and query maps -/
 
